@@ -58,6 +58,15 @@ CHECKS = {
                 "effects, byte-identity of the original directory, and the documented error paths.",
                 "Snapshots are taken by wrapping the public save(); states cross processes as JSON (exact float round-trip).",
                 "Hypothesis generated save/restore round-trips across processes, snapshot oracle + directory content hashes", "2/C10"),
+    "C11": dict(category="fault_enumeration",
+                text="Generated kill plans owned by the harness - program points around every save, the N-th file-system system call of a "
+                     "kind injected with strace, generated delays into in-flight background writes, and crash-restore-crash chains - "
+                     "each judged in a fresh process against the reference trajectory of an un-killed dry run (exact equality of the "
+                     "restored state with the state held at the iteration the checkpoint carries, lower bound from the progress log, "
+                     "exact continuation).",
+                note="Process crash (SIGKILL) on a local Linux file system, not power loss; strace counts per thread, the stage hit is classified post mortem.",
+                technique="fault injection with generated kill plans (program point / strace syscall injection / timed SIGKILL), reference-trajectory oracle",
+                design="2/C11"),
     "C12": _mdp("Generated histories (frequency, retention, sync/async, solve() calls around multiples of f and around convergence, "
                 "mid-sequence restores into the same or a new directory) judged against a cadence/retention model and per-step content.",
                 "Iteration ends are taken from the solver; known finding F9 (restore of an older step into the same directory) is excluded and counted.",
